@@ -110,7 +110,10 @@ def gen_cases(tier: str, seed: int) -> List[Dict]:
             shape = rng.choice(shapes)
             nterms = rng.choice([1, 2, 3, 4] if not quick else [1, 2, 3])
             exps = S.exps_for(len(names), 3, rng, nterms, include_const=rng.random() < 0.5)
-            p = S.make_poly_spec("a", names, exps, shape, rng, 5 if quick else 8, mode=rng.choice(["raw", "raw", "clean"]))
+            # under retain_names=False a *cleaned* input may itself lose names, which would make index / name
+            # designations refer to indeterminates the polynomial no longer has: build those inputs raw
+            mode = rng.choice(["raw", "raw", "clean"]) if opt["retain_names"] else "raw"
+            p = S.make_poly_spec("a", names, exps, shape, rng, 5 if quick else 8, mode=mode)
             kind = ["derivative", "derivative", "derivative", "gradient", "hessian"][k % 5]
             if kind == "hessian" and S.size_of(shape) * len(names) ** 2 > 18:
                 kind = "gradient"
